@@ -46,7 +46,8 @@ ASSUMPTIONS = [
 PROBES = ["reconnect", "late-finaliser", "two-in-flight", "send-races-disconnect", "nonblocking-recv-empty", "nonblocking-recv-got", "callback-delivery",
           "structured", "silent", "broadcast", "broadcast-poll", "three-endpoints", "two-socket-ids", "connection-error-after-disconnect",
           "recv-timeout", "lock-contended", "stalled-thread", "late-starter", "connect-timeout-then-retry", "connect-attempt-races-with-peer",
-          "broadcast-endpoint-leaves-before-the-others-have-received", "communication-log-enabled"]
+          "broadcast-endpoint-leaves-before-the-others-have-received", "communication-log-enabled",
+          "poll-inside-connection-lost-callback"]
 
 _mods: Dict[str, Any] = {}
 
@@ -155,7 +156,9 @@ def gen_scenario(ch: Choices, calm: bool, no_cb_reconnect: bool = False, tier: s
             reconnects.append((x, y, sid))
     return {"names": names, "broadcast": False, "script": script, "chans": chans, "callback": callback,
             "reconnect": bool(reconnects), "impatient": sorted(impatient), "commlog": (not calm) and ch.flag(1, 4, "commlog"),
-            "storage_cb": any(callback.values()) and ch.flag(1, 2, "storagecb")}
+            "storage_cb": any(callback.values()) and ch.flag(1, 2, "storagecb"),
+            # a callback endpoint reacts to "connection lost" by looking once more into its channel (non-blocking receive)
+            "lost_polls": any(callback.values()) and (not calm) and "poll-in-lost-callback" not in avoid and ch.flag(1, 3, "lostpolls")}
 
 
 def run(ch: Choices, opts: Dict[str, Any]) -> Dict[str, Any]:
@@ -257,12 +260,25 @@ def run(ch: Choices, opts: Dict[str, Any]) -> Dict[str, Any]:
     class TBcast(tbc.ThreadBroadcastChannel):
         _socket_class = TSock
 
+    def _poll_when_lost(sock) -> None:
+        """What an application may do in its connection-lost handler: one non-blocking look into the channel.  It must
+        report emptiness (or hand out a queued message), not block."""
+        if not sc.get("lost_polls"):
+            return
+        bump(probes, "poll-inside-connection-lost-callback")
+        try:
+            m = sock.recv(block=False)
+        except RuntimeError:
+            return
+        cb_log.setdefault((sock.remote_app_name, sock.app_name, sock.id), []).append((sched.points, m))
+
     class RecSocket(TSock):
         def recv_callback(self, msg):
             cb_log.setdefault((self.remote_app_name, self.app_name, self.id), []).append((sched.points, msg))
 
         def conn_lost_callback(self):
             lost_log.append((sched.points, self.app_name))
+            _poll_when_lost(self)
 
     class StoreSock(ts.StorageThreadSocket):
         """the repository's own callback endpoint (stores what comes in), observed the same way"""
@@ -279,6 +295,7 @@ def run(ch: Choices, opts: Dict[str, Any]) -> Dict[str, Any]:
 
         def conn_lost_callback(self):
             lost_log.append((sched.points, self.app_name))
+            _poll_when_lost(self)
 
         def __del__(self):
             if threading.current_thread().name != getattr(self, "_sim_owner", None):
